@@ -2143,7 +2143,7 @@ class UTPM(Ring, RawAlgorithmsMixIn):
 
         if out is None:
             LU  = A.zeros_like()
-            PIV = cls(numpy.zeros((D,P,N))) # permutation
+            PIV = cls(numpy.zeros((D,P,N), dtype=int)) # permutation (integer pivots, as in lu2)
 
         for p in range(P):
             # D = 0
